@@ -148,9 +148,25 @@ class Ctx:
         """a concrete input on which the *implementation* breaks the property"""
         self.violations.append({"signature": {"clause": clause, "features": sorted(features), "observed": observed},
                                 "witness": witness, "what": what})
+        # a run that has already found this many failing inputs which no open known finding explains stops exploring:
+        # the verdict cannot change any more, and code that is broken badly enough can make the rest of the run
+        # arbitrarily slow (quadratic blow-ups, hangs)
+        if len(self.violations) % 256 == 0:
+            known = [e for e in load_known(self.pid) if e.get("status") == "open"]
+            fresh = sum(1 for v in self.violations if not any(sig_matches(k["signature"], v["signature"]) for k in known))
+            if fresh >= VIOLATION_CAP:
+                self.notes.append(f"exploration stopped after {len(self.violations)} violations ({fresh} not covered by an open known finding)")
+                raise EnoughViolations()
 
     def obligation(self, name, ok, detail=""):
         self.obligation_log.append((name, bool(ok), detail))
+
+
+class EnoughViolations(Exception):
+    pass
+
+
+VIOLATION_CAP = 256
 
 
 def load_known(pid):
